@@ -91,9 +91,12 @@ fn go<T: Scalar, const D: usize>(h: &C17, out: &mut Outcome<T>) {
         let plam = 2 * pg.ne() - 2;
         let px: Vec<T> = (0..pdim).map(|k| if k == plam { x[lam] } else { T::rat(31 + (k * 7919 % 89) as i64, 181) }).collect();
         let obs = Obs::<T> { events: RefCell::new(vec![]) };
-        let _ = ps.generate_sample_from_x_space_point(&px, ped(), &plain, &obs);
         let mut prng = HarnessRng::<T> { k: 0, concrete: true, _p: std::marker::PhantomData };
         let _ = ps.generate_sample_from_rng(ped(), &plain, &mut prng, &obs);
+        // the x-space call with the shared Gamma coordinate is the partner's LAST call before the sampler under test
+        // runs: a single-entry "most recent value" memo is then still holding the partner's value (with the rng call
+        // last, the native replay of such a memo found it overwritten and did not reproduce the symbolic difference)
+        let _ = ps.generate_sample_from_x_space_point(&px, ped(), &plain, &obs);
         out.prove("partner sampler: rng draws = its get_dimension()", T::rat(prng.k as i64, 1), Rel::Eq, T::rat(pdim as i64, 1));
         let dl = D * pg.num_loops();
         out.prove("partner sampler: get_dimension = 2E-1+DL+(DL mod 2)", T::rat(pdim as i64, 1), Rel::Eq, T::rat((2 * pg.ne() - 1 + dl + dl % 2) as i64, 1));
